@@ -133,7 +133,7 @@ fn c06_weighted_mean_small() {
 fn c06_int_sums_2x3_f_c() {
     int_sums_2d::<2, 3, 6>(1, 0, 0);
 }
-//@ prop=C06,C18:thorough,C20:thorough tier=quick mem=5 timeout=3000 inst="weighted_sum_axis (both axes) vs explicit oracle and vs lane-wise weighted_sum on ArrayView2<i32> 2x3 stepped" bounds="all i8-range payloads; unwind 10" cbmc="--unwindset memcmp.0:33"
+//@ prop=C06,C18,C20 tier=thorough mem=5 timeout=3000 inst="weighted_sum_axis (both axes) vs explicit oracle and vs lane-wise weighted_sum on ArrayView2<i32> 2x3 stepped" bounds="all i8-range payloads; unwind 10" cbmc="--unwindset memcmp.0:33"
 #[kani::proof]
 #[kani::unwind(10)]
 fn c06_int_sums_2x3_step_rev() {
